@@ -88,6 +88,7 @@ type linRec struct {
 	present   bool
 	anyVal    bool // Has: presence only
 	val       string
+	arg       string // Range/Iterate: the request and the keys answered
 }
 
 func (o *linRec) String() string {
@@ -108,6 +109,9 @@ func (o *linRec) String() string {
 	if o.g < 0 {
 		who = "driver"
 	}
+	if o.arg != "" {
+		what += "   (" + o.arg + ")"
+	}
 	return fmt.Sprintf("[%d,%d] %s via %s: %s", o.call, o.ret, who, o.via, what)
 }
 
@@ -127,13 +131,23 @@ type linCase struct {
 	dbKey     [][]byte // key id -> database key
 	clock     atomic.Int64
 	parked    atomic.Int64   // 1 + id of the key a call is parked on inside its store read (0 = none)
-	wrote     []atomic.Int64 // per key: Set/Del calls that returned
+	wrote     []atomic.Int64 // per key: call stamp of the latest Set/Del that returned
 	intent    []atomic.Int64 // per goroutine: 1 + id of the key of the Get/Has/Set/Del it is inside (0 = none)
 	nthGet    atomic.Int64
 	scanParks atomic.Int64 // store scans that parked in this round
 }
 
 func (c *linCase) stamp() int64 { return c.clock.Add(1) }
+
+// returned notes that a Set/Del of the key that was called at `call` has returned.
+func (c *linCase) returned(id int, call int64) {
+	for {
+		old := c.wrote[id].Load()
+		if old >= call || c.wrote[id].CompareAndSwap(old, call) {
+			return
+		}
+	}
+}
 
 // parkingStore is the database as diffdb sees it: same answers, only slower at chosen moments.
 type parkingStore struct {
@@ -202,12 +216,12 @@ func (c *linCase) park(dbKey []byte, single bool) {
 			return
 		}
 	}
-	before := c.wrote[id].Load()
+	since := c.stamp()
 	c.parked.Store(int64(id + 1))
 	c.r.count("parks", 1)
 	deadline := time.Now().Add(time.Duration(c.w.ParkUs) * time.Microsecond)
 	for n := 0; ; n++ {
-		if c.wrote[id].Load() != before {
+		if c.wrote[id].Load() > since { // a write of the key that was called after this call parked has returned
 			// not a verdict: an implementation may let writers in while it reads, as long as the outcome is atomic
 			c.r.count("writes-returned-inside-a-parked-read", 1)
 			break
@@ -418,7 +432,7 @@ func (c *linCase) round(database *db.DB, round int) bool {
 					h.db.Set(rel, []byte(val))
 					rec.ret = c.stamp()
 					c.intent[g].Store(0)
-					c.wrote[id].Add(1)
+					c.returned(id, rec.call)
 					recs[g] = append(recs[g], rec)
 					r.count("op:Set", 1)
 				case linDel:
@@ -428,7 +442,7 @@ func (c *linCase) round(database *db.DB, round int) bool {
 					h.db.Del(rel)
 					rec.ret = c.stamp()
 					c.intent[g].Store(0)
-					c.wrote[id].Add(1)
+					c.returned(id, rec.call)
 					recs[g] = append(recs[g], rec)
 					r.count("op:Del", 1)
 				case linRange, linIterate:
@@ -470,8 +484,9 @@ func (c *linCase) round(database *db.DB, round int) bool {
 						r.fail("wrong-shape:diffdb.Range/Iterate", "round %d goroutine %d %s via %s (limit %d, reverse %v): %s", round, g, api, h.name, limit, reverse, msg)
 						bad.Store(true)
 					}
+					arg := fmt.Sprintf("asked for %q..%q, limit %d, reverse %v, answered %s", c.full[universe[0]][len(h.prefix):], c.full[universe[len(universe)-1]][len(h.prefix):], limit, reverse, kvKeys(got))
 					for _, o := range obs {
-						o.g, o.via, o.api, o.call, o.ret = g, h.name, api, call, ret
+						o.g, o.via, o.api, o.call, o.ret, o.arg = g, h.name, api, call, ret, arg
 						recs[g] = append(recs[g], o)
 					}
 				}
